@@ -69,8 +69,9 @@ def rule_model_bridges(prog, rep):
         ("a7", "ALA", "ALA", "A", 52, None), ("c8", "CYS", "CYM", "A", 60, (40.0, 0.0, 0.0)),
         ("c9", "CYS", "CYS", "C", 1, (60.0, 0.0, 0.0)), ("c10", "CYS", "CYS", "C", 2, (60.0, limit + 0.1, 0.0)),
         ("c11", "CYS", "CYS", "D", 7, (80.0, 0.0, 0.0)), ("c12", "CYS", "CYS", "D", 9, (80.0, 0.0, limit - 0.01)),
+        ("c13", "CYS", "CYM", "E", 1, (120.0, 0.0, 0.0)), ("c14", "CYS", "CYS", "E", 5, (120.0, 2.04, 0.0)),  # one partner labelled as a thiolate
     ]
-    want = {frozenset(("c1", "c2")), frozenset(("c3", "c4")), frozenset(("c11", "c12"))}
+    want = {frozenset(("c1", "c2")), frozenset(("c3", "c4")), frozenset(("c11", "c12")), frozenset(("c13", "c14"))}
     # bridged pairs that straddle a whole cell of every grid spacing below the limit that the code could search neighbours with (the numeric
     # constants of config.py and a few round values), along each axis, at negative and positive coordinates: detection must not depend on
     # where the molecule sits in space
@@ -97,7 +98,8 @@ def rule_model_bridges(prog, rep):
         residues, atoms = [], []
         for rid, cls, label, chain, num, sg in order:
             res = Obj({"__class__": cls, "name": label, "__id__": rid, "chain_id": chain, "res_seq": num, "atoms": [], "map": {},
-                       "ss_bonded": False, "ss_bonded_partner": None, "patches": [], "reference": None})
+                       "ss_bonded": False, "ss_bonded_partner": None, "patches": [], "reference": None, "ffname": label, "is_n_term": 0, "is_c_term": 0,
+                       "is5term": 0, "is3term": 0, "stateboolean": {}})
             names = ["N", "CA", "C", "O", "CB"] + (["SG"] if sg else [])
             for k, an in enumerate(names):
                 pos = sg if an == "SG" else (sg[0] + 1.5 + k if sg else 100.0 + num + k, 5.0, 5.0)
@@ -148,6 +150,21 @@ def rule_model_bridges(prog, rep):
         r.add(f"model|{oname}", ok, f"{oname}: bridged pairs {sorted(map(sorted, pairs))}, flagged {sorted(flagged)}, CYX patch on {sorted(cyx)}"
               + (f"; asymmetric: {asym}" if asym else "") + (f" -- expected exactly {sorted(map(sorted, want))} (sulfurs {limit} A apart or closer; "
                                                             "a partner the input labels CYX is still a cysteine; chain and numbering play no role)" if not ok else ""), where)
+        # the name under which the parameters are looked up afterwards (CYS.set_state): bridged -> CYX on both sides, whatever the input label
+        names = {}
+        try:
+            for x in residues:
+                if x["__class__"] == "CYS":
+                    run.call(x, "set_state")
+                    names[x["__id__"]] = x["ffname"]
+        except (Flow, AnalysisError):
+            names = None
+        if names is not None:
+            wrong = {i: names[i] for i in sorted(exp_ids) if names.get(i) != "CYX"}
+            free = names.get("c8")
+            r.add(f"model|{oname}|state-names", not wrong and free == "CYM", f"{oname}: parameters of the bridged cysteines are looked up under "
+                  f"{sorted(set(names[i] for i in exp_ids if i in names))}" + (f" - not CYX for {wrong}" if wrong else "") +
+                  f"; the free cysteine labelled CYM under {free!r}", "pdb2pqr/aa.py (CYS.set_state)")
     if len(results) == 2:
         a, b = results.values()
         r.add("model|order-independent", a == b, f"the two residue orders give {'the same' if a == b else 'different'} bridges", where)
